@@ -3051,24 +3051,28 @@ PPL::Grid::wrap_assign(const Variables_Set& vars,
         // `x' may wrap to a value modulo the `wrap_frequency'.
         add_grid_generator(parameter(wrap_frequency * x));
       }
-      else if ((o == OVERFLOW_IMPOSSIBLE && 2*f_n >= wrap_frequency)
-               || (f_n == wrap_frequency)) {
-        // In these cases, `x' can only take a unique (ie constant)
-        // value.
-        if (r == UNSIGNED && v_n < 0) {
-          // `v_n' is the value closest to 0 and may be negative.
+      else if (v_d == 1) {
+        // The integral values of `x' are `v_n' modulo `f_n': let `v_n'
+        // be the least one that is not below `min_value'.
+        v_n -= min_value;
+        v_n %= f_n;
+        if (v_n < 0) {
           v_n += f_n;
         }
-        unconstrain(x);
-        add_constraint(x == v_n);
-      }
-      else {
-        // If overflow is impossible but the grid frequency is less than
-        // half the wrap frequency, then there is more than one possible
-        // value for `x' in the range of the bounded integer type,
+        v_n += min_value;
+        if (f_n == wrap_frequency || v_n + f_n > max_value) {
+          // In these cases, `x' can take at most one value in the range
+          // of the bounded integer type, namely `v_n'.
+          unconstrain(x);
+          add_constraint(x == v_n);
+        }
+        // Otherwise overflow is impossible and there is more than one
+        // possible value for `x' in the range of the bounded integer type,
         // so the grid is unchanged.
-        PPL_ASSERT(o == OVERFLOW_IMPOSSIBLE && 2*f_n < wrap_frequency);
       }
+      // If `v_n / v_d' is not one of the integral values of `x', the grid
+      // (with the integrality congruence added above) is unchanged: if
+      // overflow wraps, those values are already spaced by `wrap_frequency'.
     }
     return;
   }
